@@ -427,6 +427,22 @@ fn main() {
         cases.push(Case { class: "single:headers_list3".into(), cpp: false, start: None, ops: vec![
             Op { m: "headers".into(), a: vec![dir.join("cfg_a.h").to_string_lossy().into_owned(), dir.join("cfg_b.h").to_string_lossy().into_owned(), dir.join("cfg_c.h").to_string_lossy().into_owned()] }] });
     }
+    // several headers with the clang macro fallback: a macro of the last header that only the fallback can evaluate
+    // (it goes through a function-like macro) and that needs an earlier header — which the flag-parsed builder carries
+    // as a `-include` clang argument, not as an input header
+    {
+        std::fs::write(dir.join("fl_a.h"), "#define C13_FL(x) (1u << (x))\nint fl_a_marker;\n").unwrap();
+        std::fs::write(dir.join("fl_b.h"), "#define C13_FLAG_READ C13_FL(2)\n#define C13_FLAG_WRITE (C13_FL(3) | C13_FLAG_READ)\nint fl_b_marker;\n").unwrap();
+        let h = |n: &str| Op { m: "header".into(), a: vec![dir.join(n).to_string_lossy().into_owned()] };
+        let fb = |d: &str| vec![Op { m: "clang_macro_fallback".into(), a: vec![] }, Op { m: "clang_macro_fallback_build_dir".into(), a: vec![dir.join(d).to_string_lossy().into_owned()] }];
+        for (k, ops) in [vec![h("fl_a.h"), h("fl_b.h")], vec![h("fl_a.h"), h("t.h"), h("fl_b.h")]].into_iter().enumerate() {
+            let d = format!("fbdir{k}");
+            std::fs::create_dir_all(dir.join(&d)).unwrap();
+            let mut all = ops.clone();
+            all.extend(fb(&d));
+            cases.push(Case { class: format!("single:macro_fallback_headers{k}"), cpp: false, start: None, ops: all });
+        }
+    }
     // (2) pairs of boolean-ish methods
     let boolish: Vec<(&str, &str)> = METHODS.iter().filter(|m| m.2 == "bool" || m.2 == "unit").map(|m| (m.0, m.2))
         .filter(|m| !matches!(m.0, "emit_clang_ast" | "emit_ir")).collect();
